@@ -87,6 +87,17 @@ fn max_end_sections(v: &Vec<Section>) -> (r: (u32, u32))
     }
     m
 }
+// the same two expressions with a default other than `(0, 0)` (`Option::unwrap_or(d)`: `d` iff the vector is empty)
+fn first_start_sections_or(v: &Vec<Section>, d: (u32, u32)) -> (r: (u32, u32))
+    ensures r == (if v@.len() == 0 { d } else { (v@[0].chrom, v@[0].start) }),
+{
+    if v.len() == 0 { d } else { (v[0].chrom, v[0].start) }
+}
+fn max_end_sections_or(v: &Vec<Section>, d: (u32, u32)) -> (r: (u32, u32))
+    ensures r == (if v@.len() == 0 { d } else { max_end_secs(v@, v@.len() as int) }),
+{
+    if v.len() == 0 { d } else { max_end_sections(v) }
+}
 fn max_end_children(v: &Vec<RTreeNode>) -> (r: (u32, u32))
     requires v@.len() > 0,
     ensures
@@ -110,7 +121,7 @@ fn max_end_children(v: &Vec<RTreeNode>) -> (r: (u32, u32))
 //@extract fn bigtools/src/bbi/bbiwrite.rs calculate_offsets
 //@rule R16
 //@rule R7 min=1
-//@sub /index_offsets\[level - 1\] \+= (\w+);/ => index_offsets.set(level - 1, index_offsets[level - 1] + \1); min=2
+//@sub /index_offsets\[level (\+|-) (\d+)\] (\+|-)= (\w+);/ => index_offsets.set(level \1 \2, index_offsets[level \1 \2] \3 \4); min=2
 //@sig
     requires
         [[L: pre]]
@@ -149,7 +160,7 @@ fn max_end_children(v: &Vec<RTreeNode>) -> (r: (u32, u32))
                     forall|k: int| 0 <= k < lv ==> (#[trigger] index_offsets@[k]) == old(index_offsets)@[k] + hdr_part(k, lv, i__1 as int) + sz_kids(s, lv - 1, k + 1, i__1 as int),
                     [[L: loop/other_entries_unchanged]]
                     forall|k: int| lv <= k < index_offsets@.len() ==> (#[trigger] index_offsets@[k]) == old(index_offsets)@[k],
-//@at /index_offsets\.set\(level - 1,/ nth=2 before
+//@at /index_offsets\.set\(level - \d+,/ nth=2 before
                 let ghost io1 = index_offsets@;
                 proof {
                     lemma_szk_above(s, lv - 1, lv, i__1 as int);
@@ -344,8 +355,12 @@ fn max_end_children(v: &Vec<RTreeNode>) -> (r: (u32, u32))
 //@sub /pub\(crate\) fn write_rtreeindex<W: Write \+ Seek>\(/ => fn write_rtreeindex(
 //@sub /file: &mut W,/ => file: &mut ASink,
 //@sub /io::Result<\(\)>/ => Result<(), IoError>
-//@sub /sections\s*\.first\(\)\s*\.map\(\|s\| \(s\.chrom, s\.start\)\)\s*\.unwrap_or\(\(0, 0\)\)/ => first_start_sections(sections)
-//@sub /sections\s*\.iter\(\)\s*\.map\(\|s\| \(s\.chrom, s\.end\)\)\s*\.max\(\)\s*\.unwrap_or\(\(0, 0\)\)/ => max_end_sections(sections)
+//@sub /sections\s*\.first\(\)\s*\.map\(\|s\| \(s\.chrom, s\.start\)\)\s*\.unwrap_or\(\((\d+), (\d+)\)\)/ => FIRST_START_SECS{\1,\2}(sections)
+//@sub /FIRST_START_SECS\{0,0\}\(sections\)/ => first_start_sections(sections) min=0
+//@sub /FIRST_START_SECS\{(\d+),(\d+)\}\(sections\)/ => first_start_sections_or(sections, (\1, \2)) min=0
+//@sub /sections\s*\.iter\(\)\s*\.map\(\|s\| \(s\.chrom, s\.end\)\)\s*\.max\(\)\s*\.unwrap_or\(\((\d+), (\d+)\)\)/ => MAX_END_SECS{\1,\2}(sections)
+//@sub /MAX_END_SECS\{0,0\}\(sections\)/ => max_end_sections(sections) min=0
+//@sub /MAX_END_SECS\{(\d+),(\d+)\}\(sections\)/ => max_end_sections_or(sections, (\1, \2)) min=0
 //@sub /children\s*\.iter\(\)\s*\.map\(\|n\| \(n\.end_chrom_idx, n\.end_base\)\)\s*\.max\(\)\s*\.unwrap\(\)/ => max_end_children(children)
 //@sub /children\.first\(\)\.unwrap\(\)/ => first_child(children) min=2
 //@sub /for level in \(0\.\.=levels\)\.rev\(\) \{/ => let mut lv__: usize = levels + 1; while lv__ > 0 { lv__ = lv__ - 1; let level = lv__; min=0
